@@ -29,6 +29,44 @@ BINOPS = {ast.Add: "+", ast.Sub: "-", ast.Mult: "*", ast.Div: "/", ast.FloorDiv:
 UNOPS = {ast.USub: "-", ast.UAdd: "+", ast.Not: "not", ast.Invert: "~"}
 
 
+def _fold_append_loops(body: list) -> list:
+    """``v = []`` directly followed by ``for x in it: [if c:] v.append(elt)`` is read as ``v = [elt for x in it if c]``:
+    the comprehension and its unrolled spelling have the same events and the same term."""
+    out = []
+    i = 0
+    while i < len(body):
+        st = body[i]
+        nxt = body[i + 1] if i + 1 < len(body) else None
+        folded = None
+        if isinstance(st, ast.Assign) and len(st.targets) == 1 and isinstance(st.targets[0], ast.Name) and isinstance(nxt, ast.For) and not nxt.orelse \
+                and isinstance(nxt.target, ast.Name) and len(nxt.body) == 1 and (
+                    (isinstance(st.value, ast.List) and not st.value.elts) or
+                    (isinstance(st.value, ast.Call) and isinstance(st.value.func, ast.Name) and st.value.func.id == "list" and not st.value.args and not st.value.keywords)):
+            v = st.targets[0].id
+            inner = nxt.body[0]
+            conds = []
+            while isinstance(inner, ast.If) and not inner.orelse and len(inner.body) == 1:
+                conds.append(inner.test)
+                inner = inner.body[0]
+            if isinstance(inner, ast.Expr) and isinstance(inner.value, ast.Call) and isinstance(inner.value.func, ast.Attribute) and inner.value.func.attr == "append" \
+                    and isinstance(inner.value.func.value, ast.Name) and inner.value.func.value.id == v and len(inner.value.args) == 1 and not inner.value.keywords:
+                elt = inner.value.args[0]
+                uses_v = any(isinstance(n, ast.Name) and n.id == v for part in [elt, nxt.iter] + conds for n in ast.walk(part))
+                if not uses_v:
+                    comp = ast.ListComp(elt=elt, generators=[ast.comprehension(target=nxt.target, iter=nxt.iter, ifs=conds, is_async=0)])
+                    folded = ast.Assign(targets=[st.targets[0]], value=comp)
+                    ast.copy_location(comp, nxt)
+                    ast.copy_location(folded, nxt)
+                    ast.fix_missing_locations(folded)
+        if folded is not None:
+            out.append(folded)
+            i += 2
+        else:
+            out.append(st)
+            i += 1
+    return out
+
+
 def polarity(t):
     """Strip leading negations of a test: ``not not not X`` -> (X, False).  Guards and phi/ifexp terms are recorded on the
     positive test, so ``if c: A else: B`` and ``if not c: B else: A`` have the same frames and the same terms."""
@@ -122,6 +160,7 @@ class FunctionTerms:
 
     # ------------------------------------------------------------------ statements
     def _block(self, body: list[ast.stmt], env: dict[str, Term], ctx: tuple) -> None:
+        body = _fold_append_loops(body)
         for s in body:
             self._stmt_(s, env, ctx)
             # implied guard: after ``if t: return`` the rest of the block runs under ``not t``
@@ -397,7 +436,10 @@ class FunctionTerms:
         if isinstance(e, ast.Subscript):
             return ("index", self.ev(e.value, env, ctx), self.ev_slice(e.slice, env, ctx))
         if isinstance(e, ast.BinOp):
-            return ("bin", BINOPS.get(type(e.op), "?"), self.ev(e.left, env, ctx), self.ev(e.right, env, ctx))
+            l, r = self.ev(e.left, env, ctx), self.ev(e.right, env, ctx)
+            if isinstance(e.op, ast.LShift) and l == ("const", 1):
+                return ("bin", "**", ("const", 2), r)          # canonical power of two: 1 << e is recorded as 2 ** e
+            return ("bin", BINOPS.get(type(e.op), "?"), l, r)
         if isinstance(e, ast.UnaryOp):
             return ("un", UNOPS.get(type(e.op), "?"), self.ev(e.operand, env, ctx))
         if isinstance(e, ast.BoolOp):
